@@ -577,6 +577,10 @@ func checkC20(c *km.Ctx) {
 		if n := checkErrorAborts(c, "R-C20-4", fn, "(*encoding/gob.Decoder).Decode", 0, "history file that does not decode"); n == 0 {
 			r.AnchorLost("R-C20-4", "decoding of the history file in loadEvents")
 		}
+		// every saved event is looked at: an entry past retention is skipped, it does not end the scan (the saved
+		// order is not an order by time after a clock step or in a file written by an earlier release)
+		early := loopLeftEarly(c, fn)
+		r.Add("R-C20-4", km.FuncName(fn), "every saved event is examined", c.P.Pos(fn.Pos()), "the loops over the saved history end only when exhausted or with an error", early, early == "")
 	}
 	checkSaveScheduled(c)
 }
